@@ -14,6 +14,7 @@ RULES = {
     "R-16.2": "every query attempt gets its timeout from _compute_timeout(start, lifetime, errors), evaluated inside the attempt loop; _compute_timeout raises LifetimeTimeout at duration >= lifetime",
     "R-16.3": "resolve_chaining: every trip round the loop increments the counter compared with MAX_CHAIN; too long a chain raises",
     "R-16.4": "the cache keys read in next_request equal the cache keys written in query_result",
+    "R-16.6": "optional numbers of the resolver (ndots, timeouts, lifetimes, ports) are tested for presence by identity with None, never by truthiness (ndots = 0 is a configuration, not 'unset')",
     "R-16.5": "a server that proved broken is removed from the list rounds are re-armed from; TCP retry is armed only after a UDP truncation and consumed once; NXDOMAIN is raised only when every candidate name is exhausted",
 }
 
@@ -198,12 +199,18 @@ def run(model, rep, tier):
               "R-16.5", nr.qualname, where(nr, nr.node), "each new candidate name starts with a full server list and clean retry state", "per-name state reset changed", stmt="reset-per-name")
     rep.check("self.nxdomain_responses[self.qname] = response" in t and "return (None, True)" in t, "R-16.5", qr.qualname, where(qr, qr.node), "NXDOMAIN for one candidate records the evidence and moves to the next name",
               "NXDOMAIN handling for a candidate changed", stmt="nxdomain-next")
+    # ---------------------------------------------------------------- R-16.6
+    from rules.common import presence_by_identity
+    presence_by_identity(model, rep, "R-16.6", ("dns.resolver", "dns.asyncresolver", "dns.nameserver"), ("timeout", "lifetime", "ndots"), "an optional number",
+                         "e.g. ndots = 0 is silently treated as 1 and search-list candidates are tried before the absolute name", 3, "dns.resolver / dns.asyncresolver / dns.nameserver")
     rep.meta["explanation"] = (
         "Twin projection of the sync/async resolve loops, helper lookups and the five Nameserver classes (call arguments compared modulo `backend`), def-use/dominance rule for the lifetime budget, "
         "a cycle-must-pass-increment check for the CNAME chain, and set comparison of cache keys. The outcome for every fault sequence and the search-list rules are NOT decided.")
 
 
 WITNESSES = [
+    {"id": "c16-ndots-zero-taken-for-unset", "rule": "R-16.6", "file": "dns/resolver.py", "expect": "fires",
+     "old": "                if self.ndots is None:\n                    ndots = 1\n                else:\n                    ndots = self.ndots\n", "new": "                ndots = self.ndots or 1\n"},
     {"id": "c16-soa-walk-from-question-name", "rule": "R-16.3", "file": "dns/message.py", "expect": "fires",
      "old": "            auname = qname\n", "new": "            auname = question.name\n"},
     {"id": "c16-cname-lookup-at-question-name", "rule": "R-16.3", "file": "dns/message.py", "expect": "fires",
